@@ -76,6 +76,22 @@ def run(ctx, R, tier):
                     'a spatial track can leave its spatial branch without running the per-frame loop that silences it when the listener '
                     'does not exist (and attenuates / pans it when it does)', detail='spatial branch => per-frame listener loop on every path',
                     where=tb.where(L['header']))
+            # ... and the spatial branch itself (where the emitter's position and the strength advance and the gains are
+            # applied) is entered in every chunk the track is not frozen: no exit of Track::process skips the test on
+            # self.spatial_data except the silent exit of a paused track
+            sw = [x for x in range(tb.n) if tb.blocks[x]['term']['k'] == 'switch' and not tb.blocks[x]['cleanup']
+                  and (switch_info(tb, x)[2] or '').endswith('spatial_data') and ent[0] in tb.succ(x) and tb.dominates(gate_bb(tb), x)]
+            from ..rules import bool_edges
+            silent = set()
+            adv = calls_to(tb, 'sound::PlaybackState::is_advancing')
+            be = bool_edges(tb, adv[0][0]) if adv else None
+            if be:
+                silent = tb.reachable([be[1]], stop=sw) - tb.reachable([be[0]], stop=sw)
+            skipped = [r for r in tb.return_blocks() if r not in silent and not must_pass(tb, [0], [r], sw)]
+            R.check(bool(sw) and not skipped, 'B.C15.nolistener', 'branch-every-chunk',
+                    'Track::process can return (at %s) without reaching its spatial branch: on that path the emitter position and the '
+                    'spatialization strength do not advance and the output is not spatialised' % (tb.where(skipped[0]) if skipped else '?'),
+                    detail='every non-frozen path tests self.spatial_data', where=tb.where(sw[0]) if sw else tb.file)
     lb = None
     for b in F.bodies:
         if b.path.startswith("info::Info::<'a>::listener_info") and b.krate == 'kira':
@@ -86,6 +102,19 @@ def run(ctx, R, tier):
             detail='listeners.get(listener_id.0)')
 
     follows_distance(F, R)
+    # ---- 'depends only on ...': spatialize is a function of its arguments and the track's parameters - it keeps no memory
+    # of earlier frames (a memoised gain is right only while everything it was computed from stands still)
+    sb0 = F.body('track::sub::SpatialData::spatialize')
+    if R.check(sb0 is not None, 'B.C15.stateless', 'anchor', 'spatialize not found'):
+        shared = sb0.locals[1]['ty'].startswith('&') and not sb0.locals[1]['ty'].startswith('&mut')
+        writes = [pretty_place(sb0, s['lhs']) for _, _, s in sb0.stmts() if s['k'] == 'assign' and s['lhs']['p'] and s['lhs']['l'] == 1]
+        fields = F.struct_fields('track::sub::SpatialData') or []
+        IM = ('Cell<', 'RefCell<', 'Atomic', 'Mutex<', 'RwLock<', 'OnceCell', 'OnceLock')
+        cells = [f['name'] for f in fields if any(x in f['ty'] for x in IM)]
+        R.check(bool(fields) and not cells and not writes and (shared or not writes), 'B.C15.stateless', 'spatialize',
+                'SpatialData::spatialize keeps state between frames (%s): its result no longer depends only on the positions, the '
+                'orientation and the parameters of this frame' % ', '.join(cells + writes), detail={'fields': len(fields), 'self': sb0.locals[1]['ty']},
+                where=sb0.file)
     # ---- strength
     sb = F.body('track::sub::SpatialData::spatialize')
     if R.check(sb is not None, 'B.C15.strength', 'anchor', 'spatialize not found'):
@@ -271,6 +300,11 @@ def constructors_ordered(F):
                 if not (cmp_ or mm):
                     return False
     return n > 0
+
+
+def gate_bb(tb):
+    adv = calls_to(tb, 'sound::PlaybackState::is_advancing')
+    return adv[0][0] if adv else 0
 
 
 def rigid(F, R):
